@@ -16,6 +16,8 @@ Part A (policy): the REAL `meson setup --backend=none` of $VERIF_REPO on generat
   The system dependency also comes with an UNKNOWN version (empty Version: field) against constraint shapes
   (upper bounds, inequalities, arrays): "never met if the version is unknown", on detection and from the cache;
   the cosmetic not_found_message: keyword is sprinkled over the lookups (same arguments otherwise -> same answer).
+  Links that name a variable the subproject does not define (fallback: [sub, var], `name = var` in [provide]):
+  nothing suitable comes from them (optional -> not-found, required -> error) unless the subproject overrode the name.
 Part B (integrity): wrap worlds with a corruption class at a location, a recorded-hash class and an injected
   fault, through `meson setup` and `meson subprojects download`.  Monitors wrap shutil.unpack_archive,
   urllib.request.urlopen, Resolver.get_data/check_hash/copy_tree.  Online: at every unpack the monitor hashes
@@ -83,6 +85,8 @@ def _ref_world(world: dict) -> R.World:
     subv = None
     if world['sub'] and world['pre'] != 'override_sub' and not world.get('sub_fails'):
         subv = G.SUB_VERSIONS[world['pver']]     # a subproject that fails to configure provides nothing
+        if world.get('sub_var_missing') and not world.get('sub_overrides'):
+            subv = None                          # ... and so does one that lacks the variable and overrides nothing
     return R.World(system=G.system_of(world), wrap_mode=world['wrap_mode'], fff=world['fff'],
                    provide=world['provide'], sub_on_disk=not world.get('sub_download'), sub_version=subv,
                    sub_overrides=bool(world.get('sub_overrides')) and not world.get('sub_fails'), main_dl=world.get('main_dl', 'shared'),
@@ -113,7 +117,9 @@ def _ref_lookup(lk: dict, world: T.Optional[dict] = None) -> R.Lookup:
     if lk['explicit']:
         has_var = lk.get('eform', 'pair') == 'pair'
     else:
-        has_var = bool(world.get('provide')) and not world.get('sub_overrides')
+        has_var = bool(world.get('provide')) and G.wrap_form(world) == 'var'
+    if world.get('sub_var_missing'):
+        has_var = False
     con = lk['constraint']
     return R.Lookup(constraint=tuple(con) if isinstance(con, list) else con, required=lk['required'],
                     allow_fallback=lk['allow_fallback'], explicit_fallback=lk['explicit'],
@@ -136,6 +142,8 @@ def _policy_mechanism(world: dict, lk: dict, allowed: T.Set[tuple], obs: tuple, 
         flags.append('pre-' + world['pre'])
     if world.get('sub_download'):
         flags.append('not-on-disk')
+    if world.get('sub_var_missing'):
+        flags.append('fallback-variable-missing')
     if lk['explicit']:
         flags.append('explicit')
     elif world['provide']:
@@ -739,6 +747,7 @@ def main() -> int:
     # from a lookup without constraint and then asked for with one (also the directed probe of the known finding)
     version_items = [('A', G.a_cell_to_world(c)) for c in G.a_version_table(rng, full=not quick)]
     version_items += [('A', wld) for wld in G.a_unknown_version_sequences(rng, 24 if quick else 120)]
+    version_items += [('A', wld) for wld in G.a_missing_variable_worlds(rng, full=not quick)]
     items[n_core:n_core] = version_items
     n_core += len(version_items)
     n_cells = len(items)
